@@ -27,6 +27,7 @@ type Env struct {
 	inOld       bool
 	qdepth      int
 	loop        *LoopInfo // the loop whose invariant is being evaluated
+	revealing   bool      // expand opaque specs (only while processing a reveal clause)
 }
 
 func (e *Env) with(name string, v Val) *Env {
@@ -264,7 +265,7 @@ func (fr *Frame) loadFieldNoAssume(st *State, sn string, fi int, ref string) Val
 	sorts := c.pr.smtSorts(f.Type())
 	comps := make([]string, len(sorts))
 	for k := range sorts {
-		comps[k] = sSel(st.heap[heapKey(sn, f.Name(), k)], ref)
+		comps[k] = c.selectHeap(st.heap[heapKey(sn, f.Name(), k)], ref)
 	}
 	return c.pr.mkVal(f.Type(), comps)
 }
@@ -549,6 +550,9 @@ func (fr *Frame) evalCall(x *ECall, env *Env) Val {
 	case "tvIndex":
 		s, r := arg(0), arg(1)
 		return intVal(lSub(r.C[0], "(* 8 "+s.C[0]+")"))
+	case "str":
+		// str(a, j, l): the string of length l starting at absolute index j of array a
+		return Val{K: KStr, C: []string{arg(0).C[0], arg(1).C[0], arg(2).C[0]}}
 	case "arr":
 		// backing array of a string value
 		return Val{K: KInt, C: []string{arg(0).C[0]}}
@@ -697,10 +701,10 @@ func (fr *Frame) evalCall(x *ECall, env *Env) Val {
 			c.errorf("%s: spec %s expects %d arguments", fr.name, x.Fn, len(sp.Params))
 			return intVal("0")
 		}
-		if sp.Rec {
+		if sp.Rec || (sp.Opaque && !env.revealing) {
 			return fr.applyRecSpec(sp, x, env)
 		}
-		n := &Env{fr: env.fr, cur: env.cur, old: env.old, vars: map[string]Val{}, params: map[string]Val{}, results: env.results, inOld: env.inOld, qdepth: env.qdepth, loop: env.loop, useCells: false}
+		n := &Env{fr: env.fr, cur: env.cur, old: env.old, vars: map[string]Val{}, params: map[string]Val{}, results: env.results, inOld: env.inOld, qdepth: env.qdepth, loop: env.loop, useCells: false, revealing: false}
 		for i, p := range sp.Params {
 			n.vars[p.Name] = arg(i)
 		}
@@ -750,6 +754,28 @@ func (fr *Frame) applyRecSpec(sp *Spec, x *ECall, env *Env) Val {
 		return boolVal(t)
 	}
 	return intVal(t)
+}
+
+// revealHint assumes the definition of an opaque spec at the given arguments.
+func (fr *Frame) revealHint(u Expr, env *Env) {
+	c := fr.c
+	call, ok := u.(*ECall)
+	if !ok {
+		c.errorf("%s: reveal needs a spec application", fr.name)
+		return
+	}
+	sp := c.pr.Cs.Specs[call.Fn]
+	if sp == nil || !sp.Opaque {
+		c.errorf("%s: reveal of a spec that is not opaque: %s", fr.name, call.Fn)
+		return
+	}
+	lhs := fr.applyRecSpec(sp, call, env)
+	n := &Env{fr: env.fr, cur: env.cur, old: env.old, vars: map[string]Val{}, params: map[string]Val{}}
+	for i, p := range sp.Params {
+		n.vars[p.Name] = fr.evalExpr(call.Args[i], env)
+	}
+	rhs := fr.evalExpr(sp.Body, n)
+	c.assume(sEq(lhs.C[0], rhs.C[0]))
 }
 
 // unfoldHint instantiates the defining equation of a recursive spec at the given arguments.
